@@ -97,7 +97,7 @@ abbrev Layer (κ cb : Type) := LayerG κ cb Event
 inductive Item (cb : Type) where
   | cb (c : cb)
   | raise (e : PyExc)
-  deriving Repr
+  deriving Repr, DecidableEq
 
 /-- one `source.read()` followed by `feed`/`Parse`: the batch of items it produces, or an
     exception before the tokenizer is reached (`read` raises, the chunk is `bytes` without an
